@@ -6,7 +6,8 @@ from fractions import Fraction
 
 import numpy as np
 
-from .. import history1
+from .. import gen1, history1
+from ..core import rs
 from .base1 import Hist1Prop
 
 
@@ -42,6 +43,637 @@ def wellformed(snap):
         out.append(f"dtype_mismatch: dtype {snap['dtype']} over {snap['_freq_dtype']}/{snap['_err2_dtype']} arrays")
     return out
 
+# ------------------------------------------------------------------------------------------------------------------------
+# stream:nonfinite -- histories over histograms in which some content / squared error / missed count is NaN or +-inf
+#
+# Such histograms are reached legitimately: an infinite factor on a histogram with an empty bin (0 * inf = NaN),
+# HistogramCollection.normalize_bins() with a bin empty in all members (0 / 0), NaN / inf handed to the constructor or to the
+# `frequencies` / `errors2` setters, float weights whose sum (or sum of squares) overflows.  The property still demands, with
+# free arithmetics off: no content and no squared error is negative afterwards (a NaN entry is neither negative nor
+# non-negative: only the finite entries and -inf are judged); an operation that would make a negative one -- a negative
+# factor / divisor on a histogram with a positive content, subtracting more than is there in some (finite) bin, assigning or
+# constructing with a negative entry -- is refused WHATEVER ELSE the arrays contain; a refused operation leaves every bin as
+# it was (NaN compares equal to NaN in the snapshots: core.nrs encodes NaN as None, +-inf as "inf" / "-inf").
+# The Lean model's contents are rationals: these cases are oracle-only (model_case gives None).
+NONFIN = ("inf", "-inf", None)
+NF_SHARE = 10                  # every NF_SHARE-th generated case (k % NF_SHARE == 7) belongs to this stream
+
+
+def tokf(t) -> float:
+    """snapshot token -> double (None = NaN)"""
+    if t is None:
+        return float("nan")
+    if t in ("inf", "-inf"):
+        return float(t)
+    f = Fraction(t)
+    x = f.numerator / f.denominator
+    assert Fraction(x) == f, f"{t} is not a double"
+    return x
+
+
+def is_neg(t) -> bool:
+    return t == "-inf" or (t not in NONFIN and Fraction(t) < 0)
+
+
+def is_pos(t) -> bool:
+    return t == "inf" or (t not in NONFIN and Fraction(t) > 0)
+
+
+def has_nonfinite(snap) -> bool:
+    return snap is not None and any(x in NONFIN for x in snap["freq"] + snap["err2"])
+
+
+def _prod(shape):
+    n = 1
+    for x in shape:
+        n *= x
+    return n
+
+
+def nf_wellformed(snap):
+    """the well-formedness facts of a 1-D / N-d snapshot; non-finite entries allowed (NaN is not judged, -inf is negative)"""
+    out = []
+    nd = "shape" in snap
+    axes = snap["bins"] if nd else [snap["bins"]]
+    n = _prod(snap["shape"]) if nd else len(snap["bins"])
+    if not snap["_shape_ok"]:
+        out.append("shape: frequencies / errors2 / bins shapes do not match")
+    if len(snap["freq"]) != n or len(snap["err2"]) != n or (nd and snap["shape"] != [len(b) for b in axes]):
+        out.append("shape: frequencies / errors2 / bins lengths do not match")
+    if any(is_neg(x) for x in snap["err2"]):
+        out.append(f"negative_err2: {snap['err2']}")
+    if any(is_neg(x) for x in snap["freq"]):
+        out.append(f"negative_content: {snap['freq']}")
+    for a, bb in enumerate(axes):
+        bins = [(Fraction(l), Fraction(r)) for l, r in bb]
+        if any(l >= r for l, r in bins) or any(bins[i][1] > bins[i + 1][0] for i in range(len(bins) - 1)):
+            out.append(f"bins_not_rising: axis {a}")
+    if snap["_freq_dtype"] != snap["dtype"] or snap["_err2_dtype"] != snap["dtype"]:
+        out.append(f"dtype_mismatch: dtype {snap['dtype']} over {snap['_freq_dtype']}/{snap['_err2_dtype']} arrays")
+    return out
+
+
+# ---- running the ops: the generic 1-D / N-d op languages plus four ops that carry non-finite tokens
+def _carrier(t, k):
+    x = tokf(t)
+    if k == "pyint":
+        return int(Fraction(t))
+    if k == "pyfloat":
+        return float(x)
+    return np.dtype(k).type(x)
+
+
+def nf_step(kind, s, op, log):
+    from .. import impl1, implnd
+    name = op["op"]
+    if not name.startswith("nf_"):
+        return (implnd.step if kind == "histn" else impl1.step)(s, op, log)
+
+    def reg(i):
+        return s.regs[i] if 0 <= i < len(s.regs) else None
+
+    # operands and arrays are prepared outside the `try`: only the library's own refusals are recorded as REFUSED
+    if name == "nf_of_arrays":
+        dt = np.dtype(op["dtype"])
+        f = np.array([tokf(x) for x in op["freq"]], dtype=float).astype(dt)
+        e = None if op.get("err2") is None else np.array([tokf(x) for x in op["err2"]], dtype=float).astype(dt)
+        if kind == "histn":
+            from physt.histogram_nd import Histogram2D, HistogramND
+            shape = tuple(len(b["bins"]) for b in op["axes"])
+            f = f.reshape(shape)
+            e = None if e is None else e.reshape(shape)
+
+            def call():
+                axes = [impl1.mk_binning(b) for b in op["axes"]]
+                klass = Histogram2D if len(axes) == 2 else HistogramND
+                s.set(op["out"], klass(axes, f, errors2=e, missed=tokf(op.get("missed", "0")), keep_missed=op.get("keep", True),
+                                       axis_names=[f"ax{i}" for i in range(len(axes))]))
+        else:
+            from physt.histogram1d import Histogram1D
+
+            def call():
+                s.set(op["out"], Histogram1D(impl1.mk_binning(op["binning"]), f, e, keep_missed=op.get("keep", True),
+                                             underflow=tokf(op.get("under", "0")), overflow=tokf(op.get("over", "0")),
+                                             inner_missed=tokf(op.get("inner", "0"))))
+    else:
+        x = reg(op["h"])
+        if x is None:
+            log.append(f"{name}: register {op['h']} does not exist")
+            return impl1.REFUSED
+        if name == "nf_scale":
+            c = _carrier(op["c"], op["k"])
+            how = op["how"]
+
+            def call():
+                if how == "imul":
+                    y = x
+                    y *= c
+                    s.set(op["h"], y)
+                elif how == "idiv":
+                    y = x
+                    y /= c
+                    s.set(op["h"], y)
+                elif how == "mul":
+                    s.set(op["out"], x * c)
+                elif how == "rmul":
+                    s.set(op["out"], c * x)
+                elif how == "div":
+                    s.set(op["out"], x / c)
+                else:
+                    raise KeyError(how)
+        elif name == "nf_set":
+            vals = np.array([tokf(t) for t in op["vals"]], dtype=float).astype(np.dtype(op.get("k", "float64")))
+            if op.get("shape"):
+                vals = vals.reshape(op["shape"])
+            if op.get("container") == "list":
+                vals = vals.tolist()
+
+            def call():
+                if op["which"] == "freq":
+                    x.frequencies = vals
+                else:
+                    x.errors2 = vals
+        elif name == "nf_fill":
+            v = [impl1.fl(t) for t in op["v"]] if isinstance(op["v"], list) else impl1.fl(op["v"])
+            w = _carrier(op["w"], op.get("wk", "pyfloat"))
+
+            def call():
+                x.fill(v, w)
+        else:
+            raise KeyError(name)
+    try:
+        call()
+        return "ok"
+    except KeyError:
+        raise
+    except Exception as e:
+        log.append(f"{name}: {type(e).__name__}: {e}"[:200])
+        return impl1.REFUSED
+
+
+def nf_run(case):
+    from .. import impl1, implnd
+    kind = case["kind"]
+    snap = implnd.snapn if kind == "histn" else impl1.snap1
+    s = impl1.Store()
+    outs, log = [], []
+    for op in case["ops"]:
+        ret = nf_step(kind, s, op, log)
+        outs.append({"ret": ret, "regs": [None if h is None else snap(h) for h in s.regs]})
+    return {"outs": outs, "log": log}
+
+
+# ---- generation
+NF_POS = ["2", "4", "1/2", "1/4"]                         # powers of two: exact on every finite double
+NF_NEGF = ["-1", "-5/2", "-2", "-1/2", "-inf"]           # factors that must be refused on a histogram with a positive content
+NF_NEGD = ["-2", "-1/2", "-4"]
+
+
+def _kind_of(c, rng):
+    if c not in NONFIN and Fraction(c).denominator == 1 and rng.random() < 0.5:
+        return "pyint"
+    return rng.choice(["pyfloat", "pyfloat", "float64", "float32"])
+
+
+class _NF:
+    """the frame of one history: bins (1-D static, possibly gapped; or 2 / 3 static axes), register 0 = base (finite, at least
+    one empty and one positive bin), 1 = sibling (finite, empty where the base is empty at position z), 2 = 'bigger' (finite,
+    more than the base in every bin)"""
+
+    def __init__(self, rng, nd=None, shape=None):
+        self.rng = rng
+        self.nd = (rng.random() < 0.35) if nd is None else nd
+        if self.nd:
+            self.shape = shape or [rng.randint(2, 3) for _ in range(rng.choice([2, 2, 3]))]
+            self.axes, self.mids = [], []
+            for nb in self.shape:
+                e = [float(rng.choice([0, 1, -2]))]
+                for _ in range(nb):
+                    e.append(e[-1] + rng.choice([1.0, 0.5, 2.0]))
+                pairs = [[e[i], e[i + 1]] for i in range(nb)]
+                self.axes.append(gen1.binning_json(pairs, ire=True, form="static_obj"))
+                self.mids.append([(l + r) / 2 for l, r in pairs])
+        else:
+            nb = shape[0] if shape else rng.randint(2, 5)
+            self.shape = [nb]
+            e = [rng.randint(-4, 4) / 2]
+            for _ in range(nb):
+                e.append(e[-1] + rng.choice([0.5, 1.0, 2.0]))
+            pairs = [[e[i], e[i + 1]] for i in range(nb)]
+            if nb >= 3 and rng.random() < 0.2:
+                pairs[1][0] += 0.25                          # a gap
+            self.binning = gen1.binning_json(pairs, form=rng.choice(["pairs", "static_obj", "edges"]) if shape is None else "static_obj")
+            self.mids = [[(l + r) / 2 for l, r in pairs]]
+        self.size = _prod(self.shape)
+        self.z = rng.randrange(self.size)                   # empty in the base and in the sibling
+        p = rng.choice([i for i in range(self.size) if i != self.z])
+        pool = [0, 0, 1, 2, 3.5, 0.25, 7]
+        self.base = [rng.choice(pool) for _ in range(self.size)]
+        self.base[self.z], self.base[p] = 0, rng.choice(pool[2:])
+        self.sib = [rng.choice(pool) for _ in range(self.size)]
+        self.sib[self.z] = 0
+        self.big = [b + rng.choice([1, 5, 50.5]) for b in self.base]
+        self.ops = []
+        self.nfree = 3
+
+    def where(self):
+        return {"axes": self.axes} if self.nd else {"binning": self.binning}
+
+    def new(self):
+        self.nfree += 1
+        return self.nfree - 1
+
+    def of_arrays(self, out, freq, err2=None, dtype="float64"):
+        toks = lambda a: None if a is None else [x if x in NONFIN or isinstance(x, str) else rs(x) for x in a]
+        self.ops.append({"op": "nf_of_arrays", "out": out, **self.where(), "freq": toks(freq), "err2": toks(err2), "dtype": dtype,
+                         "keep": self.rng.random() < 0.85})
+
+    def setup(self, base_dtype="float64"):
+        rng = self.rng
+        e = None if rng.random() < 0.5 else [b * rng.choice([1, 2, 0.5]) for b in self.base]
+        if base_dtype == "int64":
+            self.base = [int(b) for b in self.base]
+            if all(b == 0 for b in self.base):
+                self.base[(self.z + 1) % self.size] = 3
+            self.big = [b + 5 for b in self.base]
+            e = None
+        self.of_arrays(0, self.base, e, base_dtype)
+        self.of_arrays(1, self.sib, None, "float64")
+        self.of_arrays(2, self.big, None, "float64")
+
+    def cell_point(self, pos):
+        """a point inside cell number `pos` (row-major)"""
+        idx = []
+        for n in reversed(self.shape):
+            idx.append(pos % n)
+            pos //= n
+        idx.reverse()
+        return [self.mids[a][i] for a, i in enumerate(idx)]
+
+    # -- the ways a non-finite content comes about; each returns the register holding it
+    def source(self, how):
+        rng = self.rng
+        if how == "normalize_bins" and self.nd:
+            how = "inf_factor"
+        if how == "inf_factor":
+            form = rng.choice(["mul", "rmul", "imul"])
+            op = {"op": "nf_scale", "h": 0, "how": form, "c": "inf", "k": rng.choice(["pyfloat", "float64", "float32"])}
+            if form != "imul":
+                op["out"] = self.new()
+            self.ops.append(op)
+            return op.get("out", 0)
+        if how == "normalize_bins":
+            a, b = self.new(), self.new()
+            self.ops.append({"op": "normalize_bins", "hs": [0, 1], "outs": [a, b]})
+            return rng.choice([a, b])
+        if how == "ctor":
+            f = [x for x in self.base]
+            k = rng.randrange(self.size)
+            f[k] = rng.choice([None, None, "inf"])
+            if rng.random() < 0.4:
+                f[rng.randrange(self.size)] = rng.choice([None, "inf"])
+            e = None
+            if rng.random() < 0.5:
+                e = [x for x in self.base]
+                e[rng.randrange(self.size)] = rng.choice([None, None, "inf"])
+            if all(x is not None for x in f + (e or [])) and rng.random() < 0.8:
+                f[k] = None
+            t = self.new()
+            self.of_arrays(t, f, e, rng.choice(["float64", "float64", "float32"]))
+            return t
+        if how == "setter":
+            which = rng.choice(["freq", "freq", "err2"])
+            vals = [rs(x) for x in self.base]
+            vals[rng.randrange(self.size)] = None
+            if rng.random() < 0.4:
+                vals[rng.randrange(self.size)] = rng.choice([None, "inf"])
+            self.ops.append(self.set_op(0, which, vals))
+            return 0
+        if how == "huge_weights":
+            w = rng.choice([1e308, 1e308, 1e200])            # the sum (1e308) or only the sum of squares (1e200) overflows
+            cells = [rng.randrange(self.size)] * 2 + [rng.randrange(self.size) for _ in range(rng.randint(0, 2))]
+            pts = [self.cell_point(c) for c in cells]
+            ws = [rs(w), rs(w)] + [rs(rng.choice([1.0, 2.5])) for _ in cells[2:]]
+            t = self.new()
+            if self.nd:
+                rows = [[rs(v) for v in p] for p in pts]
+                if rng.random() < 0.5:
+                    self.ops.append({"op": "construct", "out": t, "axes": self.axes, "rows": rows, "weights": ws, "wkind": "float64"})
+                else:
+                    self.ops.append({"op": "empty", "out": t, "axes": self.axes})
+                    self.ops.append({"op": "fill_n", "h": t, "rows": rows, "ws": ws, "wkind": "float64"})
+            else:
+                vs = [rs(p[0]) for p in pts]
+                if rng.random() < 0.5:
+                    self.ops.append({"op": "construct", "out": t, "binning": self.binning, "data": vs, "weights": ws, "wkind": "float64",
+                                     "dtype": None, "keep": True})
+                else:
+                    self.ops.append({"op": "empty", "out": t, "binning": self.binning, "dtype": None, "keep": True})
+                    self.ops.append({"op": "fill_n", "h": t, "vs": vs, "ws": ws, "wkind": "float64"})
+            if rng.random() < 0.5:
+                # ... and an undefined content beside the infinite one: inf - inf in that bin
+                self.ops.append({"op": "isub", "h": t, "o": t, "maybe_refused": True})
+            return t
+        if how == "inf_weight":
+            p = self.cell_point(rng.randrange(self.size))
+            self.ops.append({"op": "nf_fill", "h": 0, "v": [rs(v) for v in p] if self.nd else rs(p[0]), "w": "inf",
+                             "wk": rng.choice(["pyfloat", "float64"])})
+            if rng.random() < 0.6:
+                self.ops.append({"op": "nf_scale", "h": 0, "how": "imul", "c": "0", "k": "pyint"})      # inf * 0 = NaN
+                self.ops.append({"op": "iadd", "h": 0, "o": 2})
+            return 0
+        if how == "inf_minus_inf":
+            a = self.new()
+            self.ops.append({"op": "nf_scale", "h": 0, "how": "mul", "c": "inf", "k": "pyfloat", "out": a})
+            b = self.new()
+            self.ops.append({"op": "sub", "a": a, "b": a, "out": b, "maybe_refused": True})
+            self.ops.append({"op": "iadd", "h": b, "o": 2})       # NaN where the base is not empty, finite elsewhere
+            return b
+        raise KeyError(how)
+
+    def set_op(self, h, which, vals, k="float64"):
+        op = {"op": "nf_set", "h": h, "which": which, "vals": vals, "k": k,
+              "container": self.rng.choice(["array", "array", "list"])}
+        if self.nd:
+            op["shape"] = self.shape
+        return op
+
+    def mixed_vals(self, negative, beside=None):
+        """an array to assign: small non-negative numbers, NaN / inf entries (`beside`: "nan", "inf", "both", "none"; random
+        by default), and -- if `negative` -- at least one negative entry"""
+        rng = self.rng
+        beside = beside or rng.choice(["nan", "nan", "nan", "inf", "both", "none"])
+        vals = [rs(rng.choice([0, 1, 2, 0.5, 3.25])) for _ in range(self.size)]
+        order = list(range(self.size))
+        rng.shuffle(order)
+        if negative:
+            vals[order[0]] = rng.choice(["-1", "-1", "-1/4", "-7", "-inf"])
+        rest = order[1:]
+        if beside in ("nan", "both") and rest:
+            vals[rest[0]] = None
+        if beside == "inf" and rest:
+            vals[rest[0]] = "inf"
+        if beside == "both" and len(rest) > 1:
+            vals[rest[1]] = "inf"
+        if beside == "nan" and len(rest) > 1 and rng.random() < 0.3:
+            vals[rest[1]] = None
+        return vals
+
+    # -- follow-up operations
+    def follow(self, kind, t):
+        rng = self.rng
+        ops = self.ops
+        if kind == "neg_factor":
+            c = rng.choice(NF_NEGF)
+            op = {"op": "nf_scale", "h": t, "how": rng.choice(["mul", "imul", "rmul"]), "c": c, "k": _kind_of(c, rng)}
+        elif kind == "neg_divisor":
+            c = rng.choice(NF_NEGD)
+            op = {"op": "nf_scale", "h": t, "how": rng.choice(["div", "idiv"]), "c": c, "k": _kind_of(c, rng)}
+        elif kind == "zero_divisor":
+            op = {"op": "nf_scale", "h": t, "how": rng.choice(["div", "idiv"]), "c": "0", "k": rng.choice(["pyint", "pyfloat"])}
+        elif kind == "pos_factor":
+            c = rng.choice(NF_POS)
+            op = {"op": "nf_scale", "h": t, "how": rng.choice(["mul", "imul", "rmul", "div", "idiv"]), "c": c, "k": _kind_of(c, rng)}
+        elif kind == "sub_bigger":
+            op = {"op": "isub", "h": t, "o": 2, "maybe_refused": True} if rng.random() < 0.6 else \
+                 {"op": "sub", "a": t, "b": 2, "maybe_refused": True}
+        elif kind == "sub_sibling":
+            op = {"op": "isub", "h": t, "o": 1, "maybe_refused": True}
+        elif kind == "set_negative":
+            op = self.set_op(t, rng.choice(["freq", "err2"]), self.mixed_vals(True), rng.choice(["float64", "float64", "float32"]))
+        elif kind == "set_valid":
+            op = self.set_op(t, rng.choice(["freq", "err2"]), self.mixed_vals(False))
+        elif kind in ("ctor_negative", "ctor_valid"):
+            neg = kind == "ctor_negative"
+            in_err = rng.random() < 0.5
+            f = self.mixed_vals(neg and not in_err)
+            e = self.mixed_vals(neg and in_err) if (in_err or rng.random() < 0.3) else None
+            self.of_arrays(self.new(), f, e, rng.choice(["float64", "float64", "float32"]))
+            return
+        elif kind == "copy":
+            op = {"op": "copy", "h": t, "with_freq": True}
+        elif kind == "iadd":
+            op = {"op": "iadd", "h": t, "o": rng.choice([1, 1, 2])}
+        elif kind == "add":
+            op = {"op": "add", "a": t, "b": 1}
+        elif kind == "fill":
+            p = self.cell_point(rng.randrange(self.size))
+            wt, wk = rng.choice([(1, "pyint"), (2, "pyint"), (0.5, "pyfloat"), (1e200, "pyfloat")])   # 1e200: its square overflows
+            op = {"op": "fill", "h": t, "v": [rs(v) for v in p] if self.nd else rs(p[0]), "w": rs(wt), "wk": wk, "default_w": False,
+                  "maybe_refused": True}
+        elif kind == "fill_n":
+            pts = [self.cell_point(rng.randrange(self.size)) for _ in range(rng.choice([1, 3]))]
+            op = ({"op": "fill_n", "h": t, "rows": [[rs(v) for v in p] for p in pts], "ws": None, "wkind": None} if self.nd else
+                  {"op": "fill_n", "h": t, "vs": [rs(p[0]) for p in pts], "ws": None, "wkind": None})
+        elif kind == "merge":
+            op = {"op": "merge", "h": t, "amount": 2, "inplace": rng.random() < 0.5, "maybe_refused": True}
+            if self.nd:
+                op["axis"] = rng.randrange(len(self.shape))
+        elif kind == "normalize":
+            op = {"op": "normalize", "h": t, "percent": False, "inplace": rng.random() < 0.5, "maybe_refused": True}
+        elif kind == "set_dtype":
+            op = {"op": "set_dtype", "h": t, "dtype": rng.choice(["float32", "int64", "float16", "float64"]), "maybe_refused": True,
+                  "via_property": rng.random() < 0.5}
+        elif kind == "derive":
+            if self.nd:
+                op = rng.choice([{"op": "projection", "h": t, "axes": [rng.randrange(len(self.shape))]},
+                                 {"op": "select", "h": t, "axis": rng.randrange(len(self.shape)), "index": 0}])
+            else:
+                op = {"op": "slice", "h": t, "start": rng.choice([None, 0, 1]), "stop": rng.choice([None, 2, -1])}
+        else:
+            raise KeyError(kind)
+        if op["op"] in ("copy", "add", "sub", "projection", "select", "slice") or op.get("how") in ("mul", "rmul", "div") or \
+                (op["op"] in ("merge", "normalize") and not op["inplace"]):
+            op["out"] = self.new()
+        ops.append(op)
+
+    def case(self, tags):
+        return {"kind": "histn" if self.nd else "hist1", "sub": "nonfinite", "ops": self.ops, "tolerance": True,
+                "tags": ["stream:nonfinite", "stream:nonfinite:" + ("nd" if self.nd else "1d")] + tags}
+
+
+NF_SOURCES = ["inf_factor", "inf_factor", "inf_factor", "normalize_bins", "normalize_bins", "ctor", "ctor", "setter", "setter",
+              "huge_weights", "huge_weights", "inf_weight", "inf_minus_inf"]
+NF_REFUSERS = ["neg_factor", "neg_factor", "neg_divisor", "sub_bigger", "sub_bigger", "set_negative", "set_negative", "ctor_negative",
+               "zero_divisor"]
+NF_OTHERS = ["pos_factor", "pos_factor", "pos_factor", "copy", "iadd", "add", "fill", "fill_n", "merge", "normalize", "set_dtype",
+             "derive", "set_valid", "ctor_valid", "sub_sibling"]
+
+
+def nf_gen(rng):
+    fr = _NF(rng)
+    fr.setup(rng.choice(["float64", "float64", "float64", "int64", "float32"]))
+    src = rng.choice(NF_SOURCES)
+    t = fr.source(src)
+    tags = ["kind:nf_src:" + src]
+    for _ in range(rng.randint(3, 7)):
+        kind = rng.choice(NF_REFUSERS) if rng.random() < 0.5 else rng.choice(NF_OTHERS)
+        tags.append("kind:nf_op:" + kind)
+        fr.follow(kind, t if rng.random() < 0.8 else rng.choice([0, 1, t]))
+    return fr.case(tags)
+
+
+def nf_grid():
+    """every way of getting an undefined content x every operation that must then be refused, 1-D and 2-D, each followed by
+    an accepted scaling and a second refused call (the same on every seed)"""
+    import random
+    out = []
+    n = 0
+    for nd in (False, True):
+        for src in ["inf_factor", "normalize_bins", "ctor", "setter", "huge_weights", "inf_weight", "inf_minus_inf"]:
+            if nd and src == "normalize_bins":
+                continue
+            for ref in ["neg_factor", "neg_divisor", "sub_bigger", "set_negative", "ctor_negative"]:
+                for rep in range(2):
+                    n += 1
+                    rng = random.Random(f"C18:nf_grid:{n}")
+                    fr = _NF(rng, nd=nd, shape=[2, 2] if nd else [3])
+                    fr.setup("float64" if rep else rng.choice(["float64", "int64", "float32"]))
+                    t = fr.source(src)
+                    fr.follow(ref, t)
+                    fr.follow("pos_factor", t)
+                    fr.follow(rng.choice(["neg_factor", "set_negative", "sub_bigger"]), t)
+                    out.append(fr.case(["stream:nonfinite_grid", "kind:nf_src:" + src, "kind:nf_op:" + ref]))
+    return out
+
+
+# ---- oracle
+def nf_must_refuse(op, before):
+    """the reason why the property demands a refusal of `op` in the state `before` (None: no demand)"""
+    def reg(i):
+        return before[i] if isinstance(i, int) and 0 <= i < len(before) else None
+    name = op["op"]
+    if name == "nf_scale":
+        h = reg(op["h"])
+        if h is None:
+            return None
+        c = op["c"]
+        if op["how"] in ("div", "idiv"):
+            if c == "0":
+                return "division by zero"
+            if c not in NONFIN and Fraction(c) < 0 and any(is_pos(x) for x in h["freq"]):
+                return f"negative divisor {c} on a histogram with a positive content"
+        elif is_neg(c) and any(is_pos(x) for x in h["freq"]):
+            return f"negative factor {c} on a histogram with a positive content"
+        return None
+    if name == "nf_set":
+        if reg(op["h"]) is not None and any(is_neg(v) for v in op["vals"]):
+            return f"assignment of a negative entry ({'frequencies' if op['which'] == 'freq' else 'errors2'} = {op['vals']})"
+        return None
+    if name == "nf_of_arrays":
+        if any(is_neg(v) for v in op["freq"]):
+            return f"constructor given a negative content {op['freq']}"
+        if op.get("err2") is not None and any(is_neg(v) for v in op["err2"]):
+            return f"constructor given a negative squared error {op['err2']}"
+        return None
+    if name in ("isub", "sub"):
+        h, o = reg(op.get("h", op.get("a"))), reg(op.get("o", op.get("b")))
+        if h is None or o is None or h["bins"] != o["bins"] or len(h["freq"]) != len(o["freq"]):
+            return None
+        for i, (x, y) in enumerate(zip(h["freq"], o["freq"])):
+            if x not in NONFIN and y not in NONFIN and Fraction(x) < Fraction(y):
+                return f"subtracting more than is there (bin {i}: {x} - {y})"
+        return None
+    return None
+
+
+def _same_contents(x, y):
+    if "shape" in x:
+        from . import nd_parts
+        return nd_parts._cells(x) == nd_parts._cells(y) and x["bins"] == y["bins"]
+    return content_map(x) == content_map(y)
+
+
+def _missed_of(x):
+    return [x["missed"]] if "shape" in x else [x["under"], x["over"], x["inner"]]
+
+
+def nf_oracle(case, io):
+    outs, ops = io["outs"], case["ops"]
+    fails = []
+    for k, op in enumerate(ops):
+        regs = outs[k]["regs"]
+        before = outs[k - 1]["regs"] if k else []
+        ret = outs[k]["ret"]
+        for i, r in enumerate(regs):
+            if r is None:
+                continue
+            for w in nf_wellformed(r):
+                fails.append(f"illformed: after step {k} ({op['op']} {op.get('how', op.get('which', ''))}) register {i}: {w}")
+        why = nf_must_refuse(op, before)
+        if why is not None and ret != "REFUSED":
+            fails.append(f"accepted_invalid: step {k} {op['op']} should have been refused: {why}")
+        if ret == "REFUSED":
+            for i, (x, y) in enumerate(zip(before, regs)):
+                if x is None or y is None:
+                    continue
+                if not _same_contents(x, y):
+                    fails.append(f"not_atomic: refused step {k} ({op['op']} {op.get('how', op.get('which', ''))}) changed contents of "
+                                 f"register {i}: {x['freq']} / {x['err2']} -> {y['freq']} / {y['err2']}")
+                if _missed_of(x) != _missed_of(y):
+                    fails.append(f"not_atomic: refused step {k} ({op['op']}) changed the missed counts of register {i}: "
+                                 f"{_missed_of(x)} -> {_missed_of(y)}")
+                if x["dtype"] != y["dtype"] and not np.can_cast(np.dtype(x["dtype"]), np.dtype(y["dtype"])):
+                    fails.append(f"not_atomic: refused step {k} changed dtype {x['dtype']} -> {y['dtype']} (not a lossless promotion)")
+            if len(regs) > len(before) and any(r is not None for r in regs[len(before):]):
+                fails.append(f"not_atomic: refused step {k} ({op['op']}) left a result behind")
+        elif op["op"] == "nf_scale" and op["c"] in NF_POS:
+            # an accepted scaling by a positive finite number: an undefined entry stays undefined, an infinite one infinite,
+            # a finite one does not become undefined
+            src = before[op["h"]] if op["h"] < len(before) else None
+            res = regs[op.get("out", op["h"])] if op.get("out", op["h"]) < len(regs) else None
+            if src is not None and res is not None and len(src["freq"]) == len(res["freq"]):
+                for f in ("freq", "err2"):
+                    for i, (x, y) in enumerate(zip(src[f], res[f])):
+                        if (x is None) != (y is None) or (x == "inf" and y != "inf"):
+                            fails.append(f"nonfinite_lost: step {k} ({op['how']} by {op['c']}) turned {f}[{i}] = {x} into {y}")
+                            break
+        if len(fails) > 6:
+            break
+    return fails[:6]
+
+
+def nf_nontrivial(case, io):
+    outs = io["outs"]
+    first = next((k for k, o in enumerate(outs) if any(has_nonfinite(r) for r in o["regs"])), None)
+    if first is None:
+        return False
+    rets = [o["ret"] for o in outs[first + 1:]]
+    return "REFUSED" in rets and any(r != "REFUSED" for r in rets)
+
+
+def nf_shrink(case):
+    """drop one operation (never the first: the base histogram).  Operations on registers that no longer exist are answered
+    REFUSED and change nothing, and the oracle takes its demands from the states actually reached, so every candidate is a
+    well-formed case of the stream"""
+    ops = case["ops"]
+    for k in range(len(ops) - 1, 0, -1):
+        c = copy.deepcopy(case)
+        del c["ops"][k]
+        yield c
+
+
+def nf_neighbours(case):
+    """the same history ending in each of the operations that must be refused, on every register"""
+    nregs = 1 + max([o.get("out", 0) for o in case["ops"]] + [max(o.get("outs", [0])) for o in case["ops"]])
+    size = len(case["ops"][0]["freq"])
+    shape = case["ops"][0].get("axes") and [len(b["bins"]) for b in case["ops"][0]["axes"]]
+    for h in range(nregs):
+        tails = [{"op": "nf_scale", "h": h, "how": "mul", "c": "-1", "k": "pyint", "out": nregs},
+                 {"op": "nf_scale", "h": h, "how": "imul", "c": "-5/2", "k": "pyfloat"},
+                 {"op": "nf_scale", "h": h, "how": "idiv", "c": "-2", "k": "pyint"},
+                 {"op": "isub", "h": h, "o": 2, "maybe_refused": True}]
+        for which in ("freq", "err2"):
+            t = {"op": "nf_set", "h": h, "which": which, "vals": [None, "-1"] + ["2"] * (size - 2), "k": "float64", "container": "array"}
+            if shape:
+                t["shape"] = shape
+            tails.append(t)
+        for t in tails:
+            c = copy.deepcopy(case)
+            c["ops"].append(t)
+            yield c
+
+
 
 class C18(Hist1Prop):
     ID = "C18"
@@ -51,10 +683,18 @@ class C18(Hist1Prop):
             "with invalid calls (incompatible or non-histogram operand, wrong weight shape, negative factor, zero divisor, "
             "refused dtype, subtracting too much, bad index, non-integral merge amount) injected at random positions; after "
             "every step every live histogram is checked for well-formedness, after every refused step all are compared with "
-            "their snapshot before. non-trivial = at least one refused and one successful mutating step; distinct = op-list hash")
+            "their snapshot before. non-trivial = at least one refused and one successful mutating step; distinct = op-list hash. "
+            "stream:nonfinite (every 10th case, 1-D and N-d, oracle only: the model's contents are rationals): histories over "
+            "histograms holding NaN / inf contents, squared errors or missed counts (infinite factor on an empty bin, "
+            "normalize_bins with a bin empty in all members, NaN / inf given to the constructor or the setters, overflowing "
+            "weight sums, inf - inf), followed by negative factors / divisors, too large subtractions, assignments and "
+            "constructions with a negative entry beside NaN / inf (all to be refused, nothing changed, no finite entry or -inf "
+            "negative afterwards) mixed with accepted operations; plus a fixed grid source x refused operation in 1-D and 2-D")
     FIELDS = {"bins", "freq", "err2", "under", "over", "inner", "total", "dtype", "keep"}
 
     def gen_case(self, rng, k, tier):
+        if k % NF_SHARE == 7:
+            return nf_gen(rng)
         if k % 5 == 3:
             from . import nd_parts
             return nd_parts.c18_gen(rng)
@@ -78,7 +718,20 @@ class C18(Hist1Prop):
         # (or inf); contents and errors themselves are still compared exactly
         return self.FIELDS - {"total"} if "dtype_focus" in case.get("tags", []) else self.FIELDS
 
+    def exhaustive_cases(self, tier):
+        return nf_grid()
+
+    def model_case(self, case, io):
+        # contents of the Lean model are rationals: histories with NaN / inf contents are checked by the oracle only
+        return None if case.get("sub") == "nonfinite" else case
+
+    def neighbours(self, case):
+        return nf_neighbours(case) if case.get("sub") == "nonfinite" else []
+
     def shrink_candidates(self, case):
+        if case.get("sub") == "nonfinite":
+            yield from nf_shrink(case)
+            return
         ops = case["ops"]
         for k in range(len(ops) - 1, 2, -1):
             c = copy.deepcopy(case)
@@ -86,6 +739,8 @@ class C18(Hist1Prop):
             yield c
 
     def run_impl(self, case):
+        if case.get("sub") == "nonfinite":
+            return nf_run(case)
         if case.get("kind") == "histn":
             from .. import implnd
             outs, log = implnd.run(case)
@@ -108,6 +763,8 @@ class C18(Hist1Prop):
         return {"outs": outs, "log": log}
 
     def oracle(self, case, io):
+        if case.get("sub") == "nonfinite":
+            return nf_oracle(case, io)
         if case.get("kind") == "histn":
             from . import nd_parts
             return nd_parts.c18_oracle(case, io)
@@ -164,6 +821,8 @@ class C18(Hist1Prop):
         return False
 
     def nontrivial(self, case, io):
+        if case.get("sub") == "nonfinite":
+            return nf_nontrivial(case, io)
         rets = [o["ret"] for o in io["outs"][3:]]
         return "REFUSED" in rets and any(r != "REFUSED" for r in rets)
 
